@@ -581,6 +581,16 @@ var xpHeaders = []string{"", "syntax = \"proto3\";\npackage p;\n", "edition = \"
 // inside messages/enums/services, nested bodies, unbalanced bodies), and one-bracket mutants of
 // valid files: each bracket inserted at every declaration boundary, each bracket removed.
 func xpDirected(add func([]byte)) {
+	// `reserved` lists mixing tags and names with a missing / misplaced terminator: the diagnostic's
+	// suggested edits must stay inside the declaration
+	for _, body := range []string{`reserved 1, "foo"`, `reserved "foo", 1`, `reserved 1 "foo"`, `reserved 1, "foo" ,`,
+		`reserved 1, 2, "a", "b"`, `reserved "a", 1 to 3`, `reserved 1 to max, "a"`} {
+		for _, tail := range []string{" }", "}", "", ";}", " ; }", "\n}", " // c\n}"} {
+			add([]byte("message M { " + body + tail))
+			add([]byte("syntax = \"proto3\";\nenum E { E0 = 0; " + body + tail))
+			add([]byte("edition = \"2023\";\nmessage M { " + strings.ReplaceAll(body, `"`, "") + tail))
+		}
+	}
 	// numerals whose integer / power-of-five form cannot be materialized (the parser must finish)
 	for _, n := range []string{"1e999999999", "1e2000000000", "1e-2000000000", "5E+2147483647", "123456789e-2147483640",
 		"0x1p999999999", "0x1p-999999999", ".1e1000000000", "1e19", "1e20", "18446744073709551616e0"} {
